@@ -87,7 +87,7 @@ def _sink(ctx, repo, enter) -> None:
         sysmod = _types.SimpleNamespace(stdout="<stdout>", stderr="<stderr>", __stdout__="<stdout>", __stderr__="<stderr>")
         stores = {}
         it = peval.Interp(resolver=peval.repo_resolver(repo), class_resolver=cres, native_types=(_Sink, _types.SimpleNamespace), on_store=lambda k, v, _s=stores: _s.__setitem__(k, v),
-                          externs={"open": open_, "os.dup": lambda fd: 100 + fd, "os.close": lambda fd: None}, consts={"logging.root.manager.disable": 0, "os.devnull": "/dev/null"})
+                          externs={"open": open_, "os.dup": lambda fd: 100 + fd, "os.close": lambda fd: None}, consts={"logging.root.manager.disable": 0, "logging.root.level": 30, "logging.root.handlers": [], "logging.root.manager.loggerDict": {}, "os.devnull": "/dev/null"})
         it.class_store[OSC, "_null_file"] = shared
         obj = it.instantiate(OSC, cres(OSC, mod), [], {}, init=False)
         obj.fields.update({"_saved_fds": {}, "_saved_logging_disable": None, "_restored": False})
@@ -137,10 +137,15 @@ def _roundtrip(ctx, repo, restore) -> None:
     cres = peval.repo_class_resolver(repo)
     mod = repo.module(ISO)
 
+    class _Logger:
+        def __init__(self):
+            self.disabled = False
+
     class Root:
         def __init__(self):
             self.level = 30
-            self.manager = _types.SimpleNamespace(disable=0)
+            self.handlers = ["<pynguin's handler>"]
+            self.manager = _types.SimpleNamespace(disable=0, loggerDict={"pynguin.generator": _Logger(), "placeholder": "<PlaceHolder>"})
 
         def setLevel(self, level):  # noqa: N802
             self.level = level
@@ -162,10 +167,10 @@ def _roundtrip(ctx, repo, restore) -> None:
         if key.startswith("sys."):
             setattr(sysmod, key[4:], value)
 
-    it = peval.Interp(resolver=peval.repo_resolver(repo), class_resolver=cres, native_types=(_Sink, _types.SimpleNamespace, Root, type(contextlib.nullcontext())), on_store=on_store,
+    it = peval.Interp(resolver=peval.repo_resolver(repo), class_resolver=cres, native_types=(_Sink, _types.SimpleNamespace, Root, _Logger, type(contextlib.nullcontext())), on_store=on_store,
                       externs={"open": lambda *a, **k: _Sink("usable"), "os.dup": dup, "os.dup2": dup2, "os.close": lambda fd: dups.pop(fd, None), "logging.disable": lambda level=50: setattr(root.manager, "disable", level),
                                "contextlib.suppress": lambda *a: contextlib.nullcontext()},
-                      consts={"sys": sysmod, "logging.root": root, "os.devnull": "/dev/null"})
+                      consts={"sys": sysmod, "logging.root": root, "os.devnull": "/dev/null", "logging.Logger": _Logger})
     it.class_store[OSC, "_null_file"] = _Sink("usable")
     obj = it.instantiate(OSC, cres(OSC, mod), [], {}, init=False)
     try:
@@ -173,11 +178,18 @@ def _roundtrip(ctx, repo, restore) -> None:
         it2 = peval.Interp(resolver=peval.repo_resolver(repo), class_resolver=cres, externs={"threading.Lock": lambda: contextlib.nullcontext()}, native_types=(type(contextlib.nullcontext()),))
         fresh = it2.instantiate(OSC, cres(OSC, mod), [], {})
         obj.fields.update(fresh.fields)
-        before = {"sys.stdin": sysmod.stdin, "sys.stdout": sysmod.stdout, "sys.stderr": sysmod.stderr, "logging threshold (logging.disable)": root.manager.disable, "level of the root logger": root.level, "file descriptors 0-2": dict(fds)}
+        def facets():
+            return {"sys.stdin": sysmod.stdin, "sys.stdout": sysmod.stdout, "sys.stderr": sysmod.stderr, "logging threshold (logging.disable)": root.manager.disable, "level of the root logger": root.level, "file descriptors 0-2": dict(fds),
+                    "handlers of the root logger": list(root.handlers), "disabled flags of the existing loggers": {k: v.disabled for k, v in root.manager.loggerDict.items() if isinstance(v, _Logger)}}
+
+        before = facets()
         obj.methods["__enter__"]()
         # what a test case may do
         sysmod.stdin, sysmod.stdout, sysmod.stderr = "<SUT stdin>", "<SUT stdout>", "<SUT stderr>"
         root.manager.disable, root.level = 40, 50
+        root.handlers[:] = ["<handler the test case installed (logging.basicConfig(force=True))>"]
+        root.manager.loggerDict["pynguin.generator"].disabled = True  # logging.config.dictConfig({"version": 1})
+        root.manager.loggerDict["sut.logger"] = _Logger()
         fds.update({0: None, 1: None, 2: None})
         obj.methods["restore"]()
     except peval.Undecided as exc:
@@ -186,7 +198,8 @@ def _roundtrip(ctx, repo, restore) -> None:
     except peval.Raises as exc:
         ctx.fail("C30.roundtrip", restore, f"enter / restore raises {exc.name} ({exc.detail[:60]})", stmt="[raises]")
         return
-    after = {"sys.stdin": sysmod.stdin, "sys.stdout": sysmod.stdout, "sys.stderr": sysmod.stderr, "logging threshold (logging.disable)": root.manager.disable, "level of the root logger": root.level, "file descriptors 0-2": dict(fds)}
+    after = facets()
+    after["disabled flags of the existing loggers"] = {k: v for k, v in after["disabled flags of the existing loggers"].items() if k in before["disabled flags of the existing loggers"]}
     for facet, was in before.items():
         ctx.check("C30.roundtrip", restore, after[facet] == was, f"{facet}: {was!r} before the execution, {after[facet]!r} after a test case changed it and the context was left: Pynguin's process state is not as before (a test case that rebinds sys.stdin, or calls logging.getLogger().setLevel(...), affects everything that runs later)", what=f"{facet} as before", stmt=f"[{facet}]")
 
@@ -199,7 +212,7 @@ def check(ctx) -> None:
     ctx.rule("C30.unconditional", "restoring writes do not depend on the state the executed code left behind; they are guarded only by the idempotence flag / `saved is not None`", floor=3)
     ctx.rule("C30.all-exits", "restore happens on every exit: __exit__ calls restore(), generator context managers restore in finally, the executor restores on its timeout path", floor=4)
     ctx.rule("C30.sink", "ABSINT: __enter__ interpreted with the shared /dev/null sink usable, closed and detached by an earlier test case: returns normally with both streams on one usable sink, re-opening and re-sharing it when needed", floor=3)
-    ctx.rule("C30.roundtrip", "ABSINT: __enter__, then a test case that rebinds the three standard streams, raises the logging threshold and the root level and closes fds 0-2, then restore(), interpreted over a model of the process: stdin, stdout, stderr, threshold, root level and fds are as before", floor=6)
+    ctx.rule("C30.roundtrip", "ABSINT: __enter__, then a test case that rebinds the three standard streams, raises the logging threshold and the root level and closes fds 0-2, then restore(), interpreted over a model of the process: stdin, stdout, stderr, threshold, root level, root handlers, the disabled flags of the existing loggers and fds are as before", floor=8)
     ctx.rule("C30.reseed", "SUT random generators are reseeded before every execution (the reseed dominates the first executed statement), with the configured seed, excluding Pynguin's own generator", floor=4)
 
     mod = repo.module(ISO)
